@@ -1651,6 +1651,12 @@ fn run_alpide(ex: &mut Executor, runs: &[AlpideRun], flags: &[u64], label: &str)
             out.fail = Some(f);
             return out;
         }
+        // (a generated page beyond the size the offset-to-next field may describe: not well-framed, see run_custom)
+        if itsgen::walker::walk(&run.spec.input).end != itsgen::walker::WalkEnd::Clean {
+            out.nontrivial = false;
+            out.labels.push("excluded:generated-page-beyond-the-size-limit".into());
+            return out;
+        }
         let muted = run.spec.argv.iter().any(|a| a == "-m");
         let errs = if muted {
             // nothing is displayed: the messages are the `reported_errors` of the statistics file
@@ -1782,6 +1788,13 @@ fn run_custom(ex: &mut Executor, spec: &ExecSpec, expect: &CustomExpect, exit_co
     };
     if let Some(f) = check_orderly(&r) {
         out.fail = Some(f);
+        return out;
+    }
+    // (a generated page can exceed what the offset-to-next field may describe - a stave frame with many hits on
+    // one page: by the independent chain walk such a stream is not well-framed, the tool rightly stops there)
+    if itsgen::walker::walk(&spec.input).end != itsgen::walker::WalkEnd::Clean {
+        out.nontrivial = false;
+        out.labels.push("excluded:generated-page-beyond-the-size-limit".into());
         return out;
     }
     let errs: Vec<oracle::ErrMsg> = crate::t_exit::shown_errors(&r);
